@@ -673,7 +673,8 @@ def run_case(env, shape, cold, plan, followups=True):
         res['first_kind'] = faults[0].fired_event['kind']
         res['first_sql'] = faults[0].fired_event['sql']
     cmap = conn_db_map(env, events)
-    res['fault_dbs'] = sorted(set(cmap.get(f.fired_event['conn'], '?') for f in faults if f.fired))
+    res['fault_dbs'] = sorted(set(cmap.get(f.fired_event['conn'], '?') for f in faults if f.fired)
+                              | set(cmap.get(e['conn'], '?') for e in after if e['phase'] == 'exc'))
     try:
         probs, lock_held = post_session_checks(env, events, observations, 'after_session')
         if dead is not None and dead in pooled_ids(env):
@@ -712,6 +713,7 @@ def mt_worker_fn(env, names, results, key):
         env.rec.tag('case')
         for i, n in enumerate(names):
             raised = None
+            since = env.rec.mark()
             try: SHAPE[n](env)
             except Exception as e:
                 raised = repr(e)[:120]
@@ -719,7 +721,7 @@ def mt_worker_fn(env, names, results, key):
             out['sessions_run'] += 1
             ts = thread_state_problems(env)
             if ts:
-                for p in ts: p.update(worker=key, after_session=i, shape=n, session_raised=raised)
+                for p in ts: p.update(worker=key, after_session=i, shape=n, session_raised=raised, since_seq=since)
                 out['thread_state'] = ts
                 break
         env.rec.tag(None)
@@ -794,8 +796,15 @@ def run_mt_case(ctx, env, rng, nworkers, nsess, p_fault, scheduled):
     for r in results.values():
         if isinstance(r, dict):
             pooled.update(r.get('pooled', ()))
-            fdbs = sorted(set(cmap.get(fe['conn'], '?') for fe in fault.fired_at if fe['thread'] == r['thread']))
-            for p in r.get('thread_state', ()): res['problems'].append(dict(p, stage='worker_end', fault_dbs=fdbs))
+            for p in r.get('thread_state', ()):
+                # databases whose connection FAILED in this worker during the offending session: injected faults and real
+                # DB-API errors alike (e.g. SQLITE_BUSY 'database is locked' at the commit of one database)
+                since = p.get('since_seq', 0)
+                fired = set(fe['seq'] for fe in fault.fired_at)
+                fdbs = sorted(set(cmap.get(e['conn'], '?') for e in events
+                                  if e['thread'] == r['thread'] and e['seq'] > since
+                                  and (e['phase'] == 'exc' or e['seq'] in fired or e.get('injected'))))
+                res['problems'].append(dict(p, stage='worker_end', fault_dbs=fdbs))
     gc.collect()
     probs = lock_problems(env)
     logp, st = log_problems(events, pooled | pooled_ids(env))
@@ -841,8 +850,9 @@ def classify(res):
     of, or the release after commit of, one database's cache failed); DBSessionContextManager._commit_or_rollback
     then leaves the live SessionCache of the OTHER database in core.local.db2cache.  Identified by: the only state
     problem is a non-empty db2cache after a two-database shape (plus the AssertionError the next session with
-    another db_session object gets from that stale cache); the session raised; the injected fault(s) hit a
-    connection of a database other than the one whose cache was left."""
+    another db_session object gets from that stale cache); the session raised; a DB-API call FAILED (injected fault or a
+    real error such as SQLITE_BUSY at one database's commit under concurrency) on a connection of a database other
+    than the one whose cache was left."""
     if res.get('dead_conn') is not None and res.get('died_during_connect') and res.get('raised') and res['problems'] and all(
             p['problem'] in ('pool_holds_dead_connection', 'dead_connection_handed_out_again', 'pooled_connection_unusable',
                              'followup_same_thread_failed') for p in res['problems']):
@@ -1034,6 +1044,7 @@ def run(ctx):
         ctx.count('mt_lock_waits', res.get('lock_waits', 0) or 0)
         ctx.count('mt_sessions_raised', res.get('raised', 0))
         record(ctx, res, 'multi_thread')
+        if res['problems'] and classify(res): ctx.count('mt_cases_classified_as_listed_finding')
         if res['problems']:
             env = make_env(ctx.tmp(), 'mt%d-%d' % (ctx.shard, i), 0.02)
     if ctx.counters.get('mt_watchdog_without_lock', 0) > 2:
